@@ -121,6 +121,17 @@ func c13Scenarios(thorough bool) []cmdScn {
 		}
 		out = append(out, s)
 	}
+	// online, requests in flight, terminal gone, a command's write fails: the reader is still handing requests over
+	for _, how := range []string{"online-pipelined-then-reset", "online-pipelined-then-close"} {
+		for _, k := range []int{1, 2} {
+			s := cmdScn{Name: fmt.Sprintf("c13:%s:k=%d", how, k), Disconnect: true, FailWhenGone: true, Bound: 2,
+				Terms: []termSpec{{Phone: p1, Behaviour: "never", CloseAt: how, PreHB2: 2}}}
+			for i := 0; i < k; i++ {
+				s.Calls = append(s.Calls, callSpec{Key: p1, Cmd: cmdMenu[i], TimeoutMs: 3000})
+			}
+			out = append(out, s)
+		}
+	}
 	// more requests pipelined behind a slow reply than the reader->writer queue holds (10), with and without a command waiting, then the peer goes
 	for _, how := range []string{"pipelined-then-reset", "pipelined-then-close"} {
 		for _, k := range []int{0, 1} {
@@ -189,7 +200,11 @@ func init() {
 				if !ctx.Thorough() {
 					// quick: the scenarios with at most one caller (their spaces close below 60000 states)
 					if len(s.Calls)+len(s.SeqCalls) <= 1 && s.SlowReplyMs == 0 {
-						exploreAll(ctx, rep, &idx, s.Name, cmdMake(s), cmdCheck, "cmd", mkCase, 60000, envBoundOf(0))
+						limit := 60000
+						if s.FailWhenGone {
+							limit = 150000 // the write failure is deterministic here: the cached search is what reaches the deep interleavings
+						}
+						exploreAll(ctx, rep, &idx, s.Name, cmdMake(s), cmdCheck, "cmd", mkCase, limit, envBoundOf(0))
 					}
 					continue
 				}
@@ -211,7 +226,7 @@ func init() {
 	})
 	vc.Register(&vc.Check{
 		ID: "C13", Level: "model_checking", SingleProc: true,
-		Rule: "C12's machinery with the terminal closing or resetting at every point of its script (before join, after join, after k commands were written, after responding to all / some, never) x k = 0..2 (thorough 0..5; k >= 4 at 2 deviations) queued or outstanding commands x write failures as a socket answer; plus 2..3 pipelined requests followed by reset/close with failing writes at 3 deviations; plus busy-writer scenarios (the user's write callback takes 120 ms of virtual time for one reply): 4-5 commands queued behind it (more than the 3-slot queue) and the peer hangs up 50 ms later, 13 requests pipelined behind it (more than the 10-slot reader->writer queue) followed by close/reset with 0..1 commands waiting, 5 timeouts expiring meanwhile; ALL schedules within the deviation bound (2 quick, 3 thorough). Then EVERY thread interleaving (no preemption bound) of the scenarios with at most one caller (thorough: all scenarios) with the default environment answers (timers fire when nothing else can run, first ready select case (moving on to the next when the same select is met again), writes succeed; thorough: also with one environment deviation for scenarios of at most one call), using a cache of happens-before state keys: each state is expanded once, every state and transition is executed at least once; the cache is validated per run by a self-test (cached search = every-schedule search on 20 programs that fail when a component of the key is removed) and by comparing a harness digest whenever a key is met again; counters unbounded_* say how many scenarios closed and how many stopped at the state limit (quick 60000 states, thorough 1000000). " +
+		Rule: "C12's machinery with the terminal closing or resetting at every point of its script (before join, after join, after k commands were written, after responding to all / some, never) x k = 0..2 (thorough 0..5; k >= 4 at 2 deviations) queued or outstanding commands x write failures as a socket answer; plus 2..3 pipelined requests followed by reset/close with failing writes at 3 deviations; plus 1..2 commands to a terminal that goes online, pipelines 2 requests and disappears with failing writes; plus busy-writer scenarios (the user's write callback takes 120 ms of virtual time for one reply): 4-5 commands queued behind it (more than the 3-slot queue) and the peer hangs up 50 ms later, 13 requests pipelined behind it (more than the 10-slot reader->writer queue) followed by close/reset with 0..1 commands waiting, 5 timeouts expiring meanwhile; ALL schedules within the deviation bound (2 quick, 3 thorough). Then EVERY thread interleaving (no preemption bound) of the scenarios with at most one caller (thorough: all scenarios) with the default environment answers (timers fire when nothing else can run, first ready select case (moving on to the next when the same select is met again), writes succeed; thorough: also with one environment deviation for scenarios of at most one call), using a cache of happens-before state keys: each state is expanded once, every state and transition is executed at least once; the cache is validated per run by a self-test (cached search = every-schedule search on 20 programs that fail when a component of the key is removed) and by comparing a harness digest whenever a key is met again; counters unbounded_* say how many scenarios closed and how many stopped at the state limit (quick 60000 states, thorough 1000000). " +
 			"Oracle: no goroutine panics (process death) and at quiescence every caller has returned. Non-trivial = schedule with >=1 deviation",
 		Assumptions: []string{"'within its timeout plus slack' is decided as: returns in every maximal execution in which timers fire; no wall clock"},
 		Run:         run(c13Scenarios), Drivers: drv,
